@@ -1,5 +1,6 @@
 SPECIFICATION MCSpec
 CONSTANTS
+  AllSchedules = FALSE
   PermuteModules = FALSE
   Ptrs = {4, 8}
   DocSeqs <- QDocSeqs
